@@ -176,6 +176,24 @@ Theorem C15_scan_reports_once_general :
     NoDup (R ++ concat (snd r)).
 Proof. exact scan_reports_once. Qed.
 
+(** Operation sequences on the API (parse / edit a returned record through its setters /
+    parse again / serialise): whatever operations came before, in whatever state, parsing
+    [b] returns [from_bytes b] - the parser has no memory, and an edit of one returned list
+    never shows in another. (Immediate in the model, where lists are values; what ties the
+    implementation to it is the sequence correspondence [check_api] and the oracle.) *)
+Theorem C15_from_bytes_pure_in_sequences :
+  forall (urlnorm : text -> url_result) (ops : list api_op) (st : list (list rec)) (b : bytes),
+    nth (length ops) (api_run urlnorm st (ops ++ [ApiParse b])) OutNone
+    = OutParse (from_bytes urlnorm b).
+Proof. exact api_parse_pure. Qed.
+
+Theorem C15_api_edit_local :
+  forall (urlnorm : text -> url_result) (st : list (list rec)) (op : api_op) (i k : nat),
+    (exists j v, op = ApiSetName i j v) \/ (exists j v, op = ApiSetCompany i j v)
+    \/ (exists j v, op = ApiSetData i j v) ->
+    i <> k -> nth k (fst (api_step urlnorm st op)) [] = nth k st [].
+Proof. exact api_edit_local. Qed.
+
 (** Non-vacuity: a concrete list over eight classes (flags, 16-bit UUID list, name, URI,
     appearance, LE role, TX power, LE features) is well formed, fits, and round-trips. *)
 Example C15_nonvacuous :
